@@ -284,6 +284,7 @@ Section OrdOk.
       louvain_partitions_t teqb tltb lf sf g weighted res thr perms.
     Proof.
       intros o lf sf g weighted res thr perms. unfold louvain_partitions_t_ord, louvain_partitions_t.
+      destruct (negative_weight_guard g weighted); [reflexivity|].
       destruct (convert_graph teqb tltb g weighted (node_map_of tltb g)) as [gu|k|st|] eqn:Hgu;
         cbn [omap bind]; try reflexivity.
       destruct (convert_graph_level g weighted (node_map_of tltb g) gu Hgu) as [Wu Hmu].
